@@ -1166,6 +1166,12 @@ def expand_fn(fs, assumed_override=False, notes=None):
                         blines[q] = ''
                     deltas.append(dict(rule='Rtail', original=expr.strip()[:80] + ' ...', rewritten='let verif_tail = <that expression>; <ghost> verif_tail'))
                     continue
+                if st.endswith(',') and ' => ' in st and not st.rstrip(',').rstrip().endswith(('{', '}')):
+                    # the value of a match arm: `PAT => EXPR,` -> `PAT => { let verif_tail = EXPR; <ghost> verif_tail },`
+                    pat, ex = st[:-1].split(' => ', 1)
+                    blines[li] = '%s%s => { let verif_tail = %s;\n%s\n%sverif_tail },' % (ind, pat, ex, block, ind)
+                    deltas.append(dict(rule='Rtail', original=st, rewritten='%s => { let verif_tail = %s; <ghost> verif_tail },' % (pat, ex)))
+                    continue
                 if st.endswith(';') or st.endswith(','):
                     raise AssembleError('%s: //@tail `%s` is not a single-line tail expression' % (where, arg))
                 blines[li] = '%slet verif_tail = %s;\n%s\n%sverif_tail' % (ind, st, block, ind)
